@@ -364,8 +364,6 @@ class C03(Plugin):
             if ns is None:
                 return None
         m = ns[1] - ns[0]
-        vop = rng.choice(['insert', 'insert', 'insert', 'append', 'prepend', 'extend', 'prextend', 'setitem', 'delitem',
-                          'setslice', 'delslice', 'replace', 'remove'])
         single_only = KINDS[kind][2] is None
 
         def el():
@@ -373,32 +371,60 @@ class C03(Plugin):
             if kind == 'stmt' and len(ast.parse(e).body) != 1:
                 e = 'pass'
             return e
-        op.update(s=s_, e=e_, vop=vop, entry='subview_' + vop)
-        if vop == 'insert':
-            op.update(idx=O.gen_index(rng, m + 1, 0.45), elems=[el()])
-        elif vop in ('append', 'prepend'):
-            op.update(elems=[el()])
-        elif vop in ('extend', 'prextend'):
-            op.update(elems=[el() for _ in range(1 if single_only else rng.choice((1, 2, 3)))])
-        elif vop in ('setitem', 'delitem'):
-            if m == 0 and rng.random() < 0.8:
-                return None
-            i = O.gen_index(rng, m, 0.1)
-            if i == 'end':
-                i = m
-            op.update(idx=i)
-            if vop == 'setitem':
-                op.update(elems=[el()])
-        elif vop in ('setslice', 'delslice'):
-            a, b = O.gen_bounds(rng, m, 0.3)
-            a, b = (None if a == 'end' and False else a), (None if b == 'end' else b)
-            if a == 'end':
-                return None
-            op.update(a=a, b=b)
-            if vop == 'setslice':
-                op.update(elems=[el() for _ in range(1 if single_only else rng.choice((1, 1, 2, 3)))])
-        elif vop == 'replace':
-            op.update(elems=[el() for _ in range(1 if single_only else rng.choice((1, 2, 3)))])
+
+        def spec(m):
+            vop = rng.choice(['insert', 'insert', 'insert', 'append', 'prepend', 'extend', 'prextend', 'setitem', 'delitem',
+                              'setitem_none', 'setslice', 'delslice', 'replace', 'remove'])
+            sp = {'vop': vop}
+            if vop == 'insert':
+                sp.update(idx=O.gen_index(rng, m + 1, 0.45), elems=[el()])
+            elif vop in ('append', 'prepend'):
+                sp.update(elems=[el()])
+            elif vop in ('extend', 'prextend'):
+                sp.update(elems=[el() for _ in range(1 if single_only else rng.choice((1, 2, 3)))])
+            elif vop in ('setitem', 'delitem', 'setitem_none'):
+                if m == 0 and rng.random() < 0.8:
+                    return None
+                i = O.gen_index(rng, m, 0.1)
+                if i == 'end':
+                    i = m
+                sp.update(idx=i)
+                if vop == 'setitem':
+                    sp.update(elems=[el()])
+            elif vop in ('setslice', 'delslice'):
+                a, b = O.gen_bounds(rng, m, 0.3)
+                b = None if b == 'end' else b
+                if a == 'end':
+                    return None
+                sp.update(a=a, b=b)
+                if vop == 'setslice':
+                    sp.update(elems=[el() for _ in range(1 if single_only else rng.choice((1, 1, 2, 3)))])
+            elif vop == 'replace':
+                sp.update(elems=[el() for _ in range(1 if single_only else rng.choice((1, 2, 3)))])
+            return sp
+
+        sp1 = spec(m)
+        if sp1 is None:
+            return None
+        op.update(sp1, s=s_, e=e_, entry='subview_' + sp1['vop'])
+        probe = list(range(m))
+        try:
+            ok1 = self.apply_vspec(probe, sp1, [None] * len(sp1.get('elems', ())))
+        except Exception:
+            ok1 = None
+        if ok1 is True and n - m + len(probe) < mn:
+            return None
+        if rng.random() < 0.4:  # a follow-up operation through the SAME view object (which must have tracked the first)
+            sub = list(range(m))
+            try:
+                r = self.apply_vspec(sub, sp1, [None] * len(sp1.get('elems', ())))
+            except Exception:
+                r = None
+            if r is True and n - m + len(sub) >= mn:  # the intermediate state must be a legal container too
+                sp2 = spec(len(sub))
+                if sp2 is not None:
+                    op['then'] = sp2
+                    op['entry'] += '+' + sp2['vop']
         exp = self.expected(tree, op)
         if exp is None:
             return None
@@ -409,6 +435,45 @@ class C03(Plugin):
         return op
 
     # -- model --------------------------------------------------------------------------------------------------------
+
+    @staticmethod
+    def apply_vspec(sub, spec, new):
+        """Apply one view operation to the window list `sub` in place.  True / None (not vetted) / 'IndexError'."""
+        m = len(sub)
+        vop = spec['vop']
+        if vop == 'insert':
+            if spec['idx'] == 'end':
+                sub.extend(new)
+            else:
+                if len(new) != 1:
+                    return None
+                sub[spec['idx']:spec['idx']] = new
+        elif vop in ('append', 'extend'):
+            sub.extend(new)
+        elif vop in ('prepend', 'prextend'):
+            sub[0:0] = new
+        elif vop in ('setitem', 'delitem', 'setitem_none'):
+            i = spec['idx']
+            if not -m <= i < m:
+                return 'IndexError'
+            if vop == 'setitem':
+                if len(new) != 1:
+                    return None
+                sub[i] = new[0]
+            else:
+                del sub[i]
+        elif vop in ('setslice', 'delslice'):
+            ns2 = norm_slice(m, 0 if spec['a'] is None else spec['a'], spec['b'])
+            if ns2 is None:
+                return None
+            sub[ns2[0]:ns2[1]] = new
+        elif vop == 'replace':
+            sub[:] = new
+        elif vop == 'remove':
+            sub[:] = []
+        else:
+            return None
+        return True
 
     def expected(self, tree, op):
         """Expected pure AST after op, or 'IndexError' / None (= not vetted after all)."""
@@ -465,41 +530,20 @@ class C03(Plugin):
             ns = norm_slice(n, 0 if op['s'] is None else op['s'], op['e'])
             if ns is None:
                 return None
-            sub = lst[ns[0]:ns[1]]
-            m = len(sub)
-            vop = op['vop']
-            if vop == 'insert':
-                if op['idx'] == 'end':
-                    sub.extend(new)
-                else:
-                    sub[op['idx']:op['idx']] = new
-                    if len(new) != 1:
+            sub = lst[ns[0]:ns[1]]   # the window; the view object keeps tracking it across its own operations
+            r = self.apply_vspec(sub, op, new)
+            if r is not True:
+                return r
+            if op.get('then'):
+                new2 = []
+                for t in op['then'].get('elems', ()):
+                    x = parse(t)
+                    if x is None:
                         return None
-            elif vop in ('append', 'extend'):
-                sub.extend(new)
-            elif vop in ('prepend', 'prextend'):
-                sub[0:0] = new
-            elif vop in ('setitem', 'delitem'):
-                i = op['idx']
-                if not -m <= i < m:
-                    return 'IndexError'
-                if vop == 'setitem':
-                    if len(new) != 1:
-                        return None
-                    sub[i] = new[0]
-                else:
-                    del sub[i]
-            elif vop in ('setslice', 'delslice'):
-                ns2 = norm_slice(m, 0 if op['a'] is None else op['a'], op['b'])
-                if ns2 is None:
-                    return None
-                sub[ns2[0]:ns2[1]] = new
-            elif vop == 'replace':
-                sub[:] = new
-            elif vop == 'remove':
-                sub[:] = []
-            else:
-                return None
+                    new2.extend(x) if isinstance(x, list) else new2.append(x)
+                r = self.apply_vspec(sub, op['then'], new2)
+                if r is not True:
+                    return r
             lst[ns[0]:ns[1]] = sub
         elif mode == 'insert':
             idx = op['idx']
@@ -532,6 +576,40 @@ class C03(Plugin):
         if sep is None:
             return None
         return sep.join(elems)
+
+    @staticmethod
+    def do_vspec(v, sp, code, opts):
+        vop = sp['vop']
+        if vop == 'insert':
+            return v.insert(code, sp['idx'], **opts)
+        if vop == 'append':
+            return v.append(code, **opts)
+        if vop == 'prepend':
+            return v.prepend(code, **opts)
+        if vop == 'extend':
+            return v.extend(code, **opts)
+        if vop == 'prextend':
+            return v.prextend(code, **opts)
+        if vop == 'setitem':
+            v[sp['idx']] = code
+            return None
+        if vop == 'setitem_none':
+            v[sp['idx']] = None
+            return None
+        if vop == 'delitem':
+            del v[sp['idx']]
+            return None
+        if vop == 'setslice':
+            v[sp['a']:sp['b']] = code
+            return None
+        if vop == 'delslice':
+            del v[sp['a']:sp['b']]
+            return None
+        if vop == 'replace':
+            return v.replace(code, one=False, **opts)
+        if vop == 'remove':
+            return v.remove(**opts)
+        raise O.Skip('vop ' + vop)
 
     def do(self, root, op, entry):
         """Perform the request on `root` through `entry`.  Raises Skip if the entry point cannot express it."""
@@ -591,33 +669,14 @@ class C03(Plugin):
                 return f.put_slice(code, a, bb, field, **opts)
         elif mode == 'subview':
             v = getattr(f, field)[op['s']:op['e']]
-            vop = op['vop']
-            if vop == 'insert':
-                return v.insert(code, op['idx'], **opts)
-            if vop == 'append':
-                return v.append(code, **opts)
-            if vop == 'prepend':
-                return v.prepend(code, **opts)
-            if vop == 'extend':
-                return v.extend(code, **opts)
-            if vop == 'prextend':
-                return v.prextend(code, **opts)
-            if vop == 'setitem':
-                v[op['idx']] = code
-                return None
-            if vop == 'delitem':
-                del v[op['idx']]
-                return None
-            if vop == 'setslice':
-                v[op['a']:op['b']] = code
-                return None
-            if vop == 'delslice':
-                del v[op['a']:op['b']]
-                return None
-            if vop == 'replace':
-                return v.replace(code, one=False, **opts)
-            if vop == 'remove':
-                return v.remove(**opts)
+            r = self.do_vspec(v, op, code, opts)
+            if op.get('then'):
+                sp2 = op['then']
+                code2 = self.code_for(dict(op, elems=sp2.get('elems') or [], vop=sp2['vop']))
+                if r is not None and hasattr(r, '_base_indices'):
+                    v = r  # view methods return the (same) view
+                r = self.do_vspec(v, sp2, code2, opts)
+            return r
         elif mode == 'one':
             idx = op['idx']
             if entry == 'put':
